@@ -85,11 +85,15 @@ Definition eval_cond (cd : cond) (v : Z) : bool :=
 Definition eval_ocond (cd : option cond) (v : Z) : bool :=
   match cd with None => true | Some c => eval_cond c v end.
 
-Inductive fop := FAdd (k : Z) | FMul (k : Z) | FMax (k : Z) | FMin (k : Z) | FNot | FNeg.
+Inductive fop := FAdd (k : Z) | FMul (k : Z) | FMax (k : Z) | FMin (k : Z) | FNot | FNeg
+  | FOr (k : Z)      (* np.add / + on a bool layer with a bool operand: logical or *)
+  | FNotF.           (* np.logical_not / `not x` on a float layer: 1.0 / 0.0, i.e. 16 / 0 in sixteenths *)
 Definition apply_fop (f : fop) (v : Z) : Z :=
   match f with
   | FAdd k => v + k | FMul k => v * k | FMax k => Z.max v k | FMin k => Z.min v k
   | FNot => if v =? 0 then 1 else 0 | FNeg => - v
+  | FOr k => if (v =? 0) && (k =? 0) then 0 else 1
+  | FNotF => if v =? 0 then 16 else 0
   end.
 (* how the operation is handed over: binary ufunc (np.add ..., wants a value), unary ufunc
    (np.negative, np.logical_not), python function of one argument *)
@@ -116,6 +120,7 @@ Definition is_cell_attr (n : Z) : bool := 100 <=? n.
 
 Definition E_VALUE : Z := 1.  Definition E_KEY : Z := 2.  Definition E_INDEX : Z := 3.
 Definition E_ATTR : Z := 4.   Definition E_TYPE : Z := 5. Definition E_EXC : Z := 6.
+Definition E_ILLEGAL : Z := 9.   (* an outcome handed to the model that the implementation cannot have produced *)
 
 Fixpoint assoc (k : Z) (l : list (Z * Z)) : option Z :=
   match l with
@@ -349,9 +354,14 @@ Inductive op :=
          (only_empty aslist : bool)
 | Place (a : Z) (c : coord)
 | Move (a : Z) (c : coord)
-| MoveRel (a : Z) (dir : coord) (moore : bool)   (* discrete: agent.move_relative(dir) on a Moore / von Neumann grid *)
+| MoveRel (a : Z) (dir : coord) (geom : Z) (torus : bool)
+     (* discrete: agent.move_relative(dir); geom 0 Moore, 1 von Neumann, 2 hex; torus = the grid wraps *)
 | Remove (a : Z)
-| Skip.
+| Skip
+| NbhdMask (nb : list coord)          (* get_neighborhood_mask(...); nb = the neighbourhood the grid reports (an outcome) *)
+| Aggregate (r : lref) (kind : Z)     (* layer.aggregate(np.sum / np.max / np.min / np.mean) *)
+| ProbeDtype (ldt : Z) (fm : oform) (f : fop) (vdt : Z).
+     (* on a fresh layer of dtype ldt: the dtype modify_cells leaves behind for an operand of dtype vdt *)
 
 Definition mk_layer (n dt : Z) (dims : list Z) (v : Z) : layer :=
   {| l_name := n; l_dt := dt; l_dims := dims; l_data := full dims v |}.
@@ -426,13 +436,63 @@ Definition do_move (st : state) (a : Z) (c0 c : coord) : state * res :=
   then (st, RErr E_EXC)                 (* SingleGrid.move_agent: occupant is another agent *)
   else (leg_place (leg_remove st a c0) a c, ROk []).   (* _Grid.move_agent: remove, place *)
 
-(* the connection keys of a non-torus orthogonal grid: Moore = every non-zero offset in {-1,0,1}^n,
-   von Neumann = one axis moved by one *)
+(* the connection keys: Moore = every non-zero offset in {-1,0,1}^n, von Neumann = one axis moved by one,
+   hex = the offset table (re-extracted from grid.py: Generated.Tables) selected by the parity of the
+   coordinate on the parity axis; the connected cell is coordinate + offset, wrapped on a torus, and
+   exists when that is inside the grid *)
 Definition vadd (a b : coord) : coord := map (fun p => fst p + snd p) (combine a b).
-Definition dir_ok (moore : bool) (d : coord) : bool :=
-  forallb (fun x => (-1 <=? x) && (x <=? 1)) d
-  && (if moore then existsb (fun x => negb (x =? 0)) d
-      else Nat.eqb (length (filter (fun x => negb (x =? 0)) d)) 1).
+Definition vmod (a dims : coord) : coord := map (fun p => fst p mod snd p) (combine a dims).
+Definition pair_in (d : coord) (l : list (Z * Z)) : bool :=
+  match d with
+  | [x; y] => existsb (fun p => (fst p =? x) && (snd p =? y)) l
+  | _ => false
+  end.
+Definition hex_offsets (c0 : coord) : list (Z * Z) :=
+  let odd := negb (nth (Z.to_nat gen_hex_parity_axis) c0 0 mod 2 =? 0) in
+  if Bool.eqb odd gen_hex_odd_uses_even_table then gen_hex_even_offsets else gen_hex_odd_offsets.
+Definition dir_ok (geom : Z) (c0 d : coord) : bool :=
+  if geom =? 2 then pair_in d (hex_offsets c0)
+  else forallb (fun x => (-1 <=? x) && (x <=? 1)) d
+       && (if geom =? 0 then existsb (fun x => negb (x =? 0)) d
+           else Nat.eqb (length (filter (fun x => negb (x =? 0)) d)) 1).
+Definition move_target (dims c0 dir : coord) (geom : Z) (torus : bool) : option coord :=
+  let c := if torus then vmod (vadd c0 dir) dims else vadd c0 dir in
+  if Nat.eqb (length dir) (length c0) && dir_ok geom c0 dir && valid_coord dims c then Some c else None.
+
+(* ---- aggregate ---- *)
+Definition zsum (l : list Z) : Z := fold_right Z.add 0 l.
+Definition SUM : Z := 0.  Definition MAX : Z := 1.  Definition MIN : Z := 2.  Definition MEAN : Z := 3.
+Definition aggregate (d : arr) (kind : Z) : option (list Z) :=
+  let vals := avals d in
+  if kind =? SUM then Some [zsum vals]
+  else if kind =? MAX then match zmaxl vals with Some t => Some [t] | None => None end
+  else if kind =? MIN then match zminl vals with Some t => Some [t] | None => None end
+  else if kind =? MEAN then Some [zsum vals; Z.of_nat (length vals)]     (* the mean is sum / n *)
+  else None.
+
+(* ---- NumPy's result dtype of modify_cells (np.where(cond, op(data, value), data)) ---- *)
+Definition DT_TYPEERROR : Z := 8.  Definition DT_VALUE_DEPENDENT : Z := 9.
+Definition dtype_result (ldt : Z) (fm : oform) (f : fop) (vdt : Z) : Z :=
+  match f with
+  | FNot | FNotF => ldt                                   (* bool result, promoted back by np.where *)
+  | FNeg => if ldt =? 0 then DT_TYPEERROR else ldt        (* numpy boolean negative is not supported *)
+  | FAdd _ | FMul _ | FOr _ => Z.max ldt vdt
+  | FMax _ | FMin _ =>
+      match fm with
+      | PyFn => if vdt =? ldt then ldt else DT_VALUE_DEPENDENT
+          (* python max / min return ONE OF their arguments and np.vectorize takes its output type from the
+             first element: with an operand of another dtype the result (and its values) depend on the data *)
+      | _ => Z.max ldt vdt
+      end
+  end.
+(* what the generators feed to modify_cells: the operand is not wider than the layer, no negative of bools *)
+Definition admissible (ldt : Z) (fm : oform) (f : fop) (vdt : Z) : bool :=
+  match f with
+  | FNot | FNotF => true
+  | FNeg => negb (ldt =? 0)
+  | FMax _ | FMin _ => match fm with PyFn => vdt =? ldt | _ => vdt <=? ldt end
+  | _ => vdt <=? ldt
+  end.
 
 Definition step (st : state) (o : op) : state * res :=
   match o with
@@ -556,16 +616,16 @@ Definition step (st : state) (o : op) : state * res :=
         | Some c0 => do_move st a c0 c
         end
       else (st, RSkip)
-  | MoveRel a dir moore =>
+  | MoveRel a dir geom torus =>
       if s_discrete st then
         match agent_cell (s_agents st) a with
         | None => (st, RSkip)
         | Some c0 =>
             (* new_cell = self.cell.connections.get(direction); None -> ValueError *)
-            let c := vadd c0 dir in
-            if Nat.eqb (length dir) (length c0) && dir_ok moore dir && valid_coord (s_dims st) c
-            then do_move st a c0 c
-            else (st, RErr E_VALUE)
+            match move_target (s_dims st) c0 dir geom torus with
+            | Some c => do_move st a c0 c
+            | None => (st, RErr E_VALUE)
+            end
         end
       else (st, RSkip)
   | Remove a =>
@@ -576,6 +636,27 @@ Definition step (st : state) (o : op) : state * res :=
           else (leg_remove st a c0, ROk [])
       end
   | Skip => (st, RSkip)
+  | NbhdMask nb =>
+      if forallb (valid_coord (s_dims st)) nb then
+        (* the translated function body itself (Generated.Tables, harness/tables/proplayer_code.py) *)
+        match (if s_discrete st then gen_nbhd_mask_d (s_dims st) nb else gen_nbhd_mask_l (s_dims st) nb) with
+        | GOk m => (st, ROk (map (fun kb => b2z (snd kb)) m))
+        | GErr k _ => (st, RErr k)
+        end
+      else (st, RErr E_ILLEGAL)
+  | Aggregate r kind =>
+      match resolve st r with
+      | Some id =>
+          match get_obj st id with
+          | Some L => match aggregate (l_data L) kind with
+                      | Some p => (st, ROk p)
+                      | None => (st, RErr E_VALUE)
+                      end
+          | None => (st, RSkip)
+          end
+      | None => (st, RSkip)
+      end
+  | ProbeDtype ldt fm f vdt => (st, ROk [dtype_result ldt fm f vdt])
   end.
 
 (* ---- the observation of the whole state, taken after every operation ---- *)
